@@ -147,7 +147,10 @@ class RefSim:
                         self._kill(e, t)
                         e.registered = False
                         for sid_, ac in list(self.registry.items()):
-                            if ac is e:
+                            a_ = ac
+                            while a_ is not None and a_ is not e:
+                                a_ = a_.parent
+                            if a_ is e:
                                 del self.registry[sid_]
                         self.reuse = True
                     child = RefActor(("explicit", explicit), src, actor, system_id)
@@ -200,7 +203,11 @@ class RefSim:
                 if sid and delay and target is not None:
                     prev = actor.sends.get(sid)
                     if prev is not None and prev["due"] is not None:
-                        if prev["due"] > t:
+                        if prev["due"] > t and (target.done or getattr(target, "fuzzy_alive", False) or not target.alive):
+                            # whether a send to a child that has completed on its own still resolves (and therefore
+                            # supersedes) is the unspecified, engine-specific zone
+                            prev["cancelled"] = None
+                        elif prev["due"] > t:
                             prev["cancelled"] = True      # re-using a send id supersedes the pending send
                         elif prev["due"] == t:
                             prev["cancelled"] = None
@@ -222,8 +229,12 @@ class RefSim:
                 elif target is not None and target is not actor.parent:
                     self._kill(target, t)
                     target.registered = False
+                    # "... stop the child and all its descendants and remove them from the children map and the system registry"
                     for sid_, ac in list(self.registry.items()):
-                        if ac is target:
+                        a_ = ac
+                        while a_ is not None and a_ is not target:
+                            a_ = a_.parent
+                        if a_ is target:
                             del self.registry[sid_]
                     if actor is self.root:
                         self.stops[opi] = target.label()
